@@ -593,12 +593,12 @@ impl<'a, 'b> InternalDelphiLogicalLineParser<'a, 'b> {
             level: ParserContextLevel::Level(0),
         });
 
-        let parent = self.get_line_parent_of_current_token();
-        if let Some(KK::Then) = self.get_current_keyword_kind() {
-            self.next_token(); // then
-        } else {
+        // The parent token only exists when the `then` does; the pass may have ended.
+        let Some(KK::Then) = self.get_current_keyword_kind() else {
             return;
         };
+        let parent = self.get_line_parent_of_current_token();
+        self.next_token(); // then
 
         trace!("Parse `then` statement");
         let mut level = ParserContextLevel::Parent(parent, 1);
@@ -644,12 +644,12 @@ impl<'a, 'b> InternalDelphiLogicalLineParser<'a, 'b> {
             level: ParserContextLevel::Level(0),
         });
 
-        let parent = self.get_line_parent_of_current_token();
-        if let Some(KK::Do) = self.get_current_keyword_kind() {
-            self.next_token(); // do
-        } else {
+        // The parent token only exists when the `do` does; the pass may have ended.
+        let Some(KK::Do) = self.get_current_keyword_kind() else {
             return;
         };
+        let parent = self.get_line_parent_of_current_token();
+        self.next_token(); // do
 
         trace!("Parsing `... do` statement");
         let level = ParserContextLevel::Parent(parent, 1);
